@@ -473,8 +473,12 @@ Drv(name, x, v, w) ==
          r == TLCEval(DrvRun(x, vv, ww, D, name # "jac_vec"))
      IN /\ r.ok
         /\ heap' = r.h /\ val' = r.v /\ saved' = r.s
-        /\ cur' = [kind |-> "D", D |-> D, pt |-> Curve(x, vv, D)]      \* "D": evaluated inside a driver (degree and
-                                                                       \* direction count are the driver's business: no bare Pb)
+        \* The single-direction drivers (gradient, vec_jac: D = 1; jac_vec, hess_vec, vec_hess_vec: D = 2 along x + t v) leave the
+        \* graph evaluated on a curve with one direction: a bare reverse sweep with a seed of that degree is a legitimate next
+        \* call and has to return ybar^T J there (kind "U").  "D": evaluated inside a multi-direction driver (direction count
+        \* is the driver's business: no bare Pb)
+        /\ cur' = [kind |-> IF name \in {"gradient", "vec_jac", "jac_vec", "hess_vec", "vec_hess_vec"} /\ P = 1 /\ "pbdrv" \in Ops THEN "U" ELSE "D",
+                   D |-> D, pt |-> Curve(x, vv, D)]
         /\ ret' = [k |-> "drv", v |-> RefDrv(name, x, v, w)]
         /\ hist' = Append(hist, [c |-> "drv", name |-> name, x |-> x, v |-> v, w |-> w, ret |-> RefDrv(name, x, v, w),
                                  \* the part of the result produced by the modelled sweep (last direction), for the design check
